@@ -9,35 +9,35 @@ From NTRIPGen Require Import GenConsts.
 (* ===================== C11 ===================== *)
 (* displayrtcm3 and rtcmfilter: the entry point hands every message to a writer goroutine over
    a channel, closes the channel and waits for the writer.  In EVERY reachable configuration of
-   that network - every interleaving, every channel capacity >= 1 (Go's unbuffered channel being
-   the capacity-1 case with immediate receive), every writer latency lat (internal steps per
+   that network - every interleaving, every channel capacity >= 1, buffered or unbuffered (sync0: a send
+   completes only when the item has been taken), every writer latency lat (internal steps per
    write) - once the entry point has returned the writer has written every message, in order.
    The [wait] parameter is read from the source on every run (the waits_... constants of GenConsts). *)
-Theorem C11_flushed_displayrtcm3 : forall (V : Type) lat cap (ms : list V) c, (1 <= cap)%nat ->
-  reachable _ _ _ (prog V lat false waits_displayrtcm3) sender receiver (MDone V) (init V cap ms) c ->
+Theorem C11_flushed_displayrtcm3 : forall (V : Type) lat (sync0 : bool) cap (ms : list V) c, (1 <= cap)%nat ->
+  reachable _ _ _ (prog V lat false waits_displayrtcm3 sync0) sender receiver (MDone V) (init V cap ms) c ->
   returned V (main_out V c) = true -> writes V (writer_out V c) = ms.
 Proof.
-  intros V lat cap ms c Hc Hr Hret.
-  exact (proj1 (flushed_at_return V lat false waits_displayrtcm3 cap ms c eq_refl Hc Hr Hret)).
+  intros V lat sync0 cap ms c Hc Hr Hret.
+  exact (proj1 (flushed_at_return V lat false waits_displayrtcm3 sync0 cap ms c eq_refl Hc Hr Hret)).
 Qed.
 Print Assumptions C11_flushed_displayrtcm3.
 
-Theorem C11_flushed_rtcmfilter : forall (V : Type) lat cap (ms : list V) c, (1 <= cap)%nat ->
-  reachable _ _ _ (prog V lat false waits_rtcmfilter) sender receiver (MDone V) (init V cap ms) c ->
+Theorem C11_flushed_rtcmfilter : forall (V : Type) lat (sync0 : bool) cap (ms : list V) c, (1 <= cap)%nat ->
+  reachable _ _ _ (prog V lat false waits_rtcmfilter sync0) sender receiver (MDone V) (init V cap ms) c ->
   returned V (main_out V c) = true -> writes V (writer_out V c) = ms.
 Proof.
-  intros V lat cap ms c Hc Hr Hret.
-  exact (proj1 (flushed_at_return V lat false waits_rtcmfilter cap ms c eq_refl Hc Hr Hret)).
+  intros V lat sync0 cap ms c Hc Hr Hret.
+  exact (proj1 (flushed_at_return V lat false waits_rtcmfilter sync0 cap ms c eq_refl Hc Hr Hret)).
 Qed.
 Print Assumptions C11_flushed_rtcmfilter.
 
 (* No schedule deadlocks: a configuration in which nothing can move is the one where the entry
    point has returned and the writer has finished. *)
-Theorem C11_no_deadlock : forall (V : Type) lat cap (ms : list V) c, (1 <= cap)%nat ->
-  reachable _ _ _ (prog V lat false true) sender receiver (MDone V) (init V cap ms) c ->
-  final_config _ _ _ (prog V lat false true) sender receiver (MDone V) c ->
+Theorem C11_no_deadlock : forall (V : Type) lat (sync0 : bool) cap (ms : list V) c, (1 <= cap)%nat ->
+  reachable _ _ _ (prog V lat false true sync0) sender receiver (MDone V) (init V cap ms) c ->
+  final_config _ _ _ (prog V lat false true sync0) sender receiver (MDone V) c ->
   nth 0%nat (procs c) (MDone V) = MDone V /\ nth 1%nat (procs c) (MDone V) = WHalt V.
-Proof. intros V lat cap ms c Hc. exact (no_deadlock V lat false true cap ms c eq_refl Hc). Qed.
+Proof. intros V lat sync0 cap ms c Hc. exact (no_deadlock V lat false true sync0 cap ms c eq_refl Hc). Qed.
 Print Assumptions C11_no_deadlock.
 
 (* Any number of writers (Writers.v): main sends every message to writers 0..k-1 in turn over bounded
@@ -54,10 +54,19 @@ Theorem C11_k_writers : forall (V : Type) lat cap k (msgs : list V) c,
 Proof. intros V lat cap k msgs c. exact (Writers.std_flushed_at_return V lat cap k msgs c). Qed.
 Print Assumptions C11_k_writers.
 
+(* and no schedule deadlocks: a configuration in which nothing can move is the one where main has run its
+   whole program and every writer 0..k-1 has halted having written the messages *)
+Theorem C11_k_no_deadlock : forall (V : Type) lat cap k (msgs : list V) c, (forall i, (1 <= cap i)%nat) ->
+  Writers.reach V lat cap (Writers.init V (Writers.std_prog V k msgs)) c ->
+  (forall c', ~ Writers.step V lat cap c c') ->
+  Writers.ops V c = [] /\ forall i, (i < k)%nat -> Writers.w V c i = Writers.WHalt V /\ Writers.wrote V c i = msgs.
+Proof. exact Writers.std_no_deadlock. Qed.
+Print Assumptions C11_k_no_deadlock.
+
 (* The protocol without the wait (the code before its repair) loses output: main has returned and
    the writer has written nothing. *)
 Theorem C11_unrepaired_witness :
-  exists c, run (st nat) nat (ev nat) (prog nat 0%nat false false) sender receiver (MDone nat) (init nat 1%nat [7]%nat) [0; 0; 0]%nat = Some c /\
+  exists c, run (st nat) nat (ev nat) (prog nat 0%nat false false false) sender receiver (MDone nat) (init nat 1%nat [7]%nat) [0; 0; 0]%nat = Some c /\
             returned nat (main_out nat c) = true /\ writes nat (writer_out nat c) = []%list.
 Proof. exact unrepaired_witness. Qed.
 Print Assumptions C11_unrepaired_witness.
